@@ -65,4 +65,16 @@ Definition run (op : bytes) (args : list val) : val :=
   else if op_is op "td.opdiv" then td_k (fun a k => val_of_R enc_td (op_div a k))
   else if op_is op "td.sum" then
     match args with [VTup l] => match dec_tds l with Some ds => val_of_R enc_td (td_sum ds (mk_td 0 0)) | None => VBad end | _ => VBad end
+  (* impl AddAssign / SubAssign: let new = self.checked_add(&rhs).expect(..); *self = new *)
+  else if op_is op "td.opaddasg" then td_2 (fun a b => val_of_R enc_td (unwrap_r (td_checked_add a b)))
+  else if op_is op "td.opsubasg" then td_2 (fun a b => val_of_R enc_td (unwrap_r (td_checked_sub a b)))
+  (* impl Sum<TimeDelta>: iter.fold(TimeDelta::zero(), |acc, x| acc + x) *)
+  else if op_is op "td.sumv" then
+    match args with [VTup l] => match dec_tds l with Some ds => val_of_R enc_td (td_sum ds (mk_td 0 0)) | None => VBad end | _ => VBad end
+  (* MIN, MAX, zero(), min_value() = MIN, max_value() = MAX *)
+  else if op_is op "td.consts" then
+    match args with
+    | [] => let lo := mk_td TD_MIN_secs TD_MIN_nanos in let hi := mk_td TD_MAX_secs TD_MAX_nanos in
+            VTup [enc_td lo; enc_td hi; enc_td (mk_td 0 0); enc_td lo; enc_td hi]
+    | _ => VBad end
   else VErr B"NOOP".
